@@ -31,6 +31,7 @@ for cfg, dd in (('default', {}), ('ndebug', {'NDEBUG': 1}), ('assert_disable', {
 # ---- C05 assignment through views (storage-image oracle)
 U('C05', 'C05_assign.cpp', defines=dict(DIM=1, NB=3, SB=4, MEMSZ2=24), unwind=6, timeout=900)
 U('C05', 'C05_assign.cpp', defines=dict(DIM=2, NB=2, SB=3, MEMSZ2=16), unwind=6, timeout=900)
+U('C05', 'C05_assign.cpp', name='C05_assign_DIM3_quick', defines=dict(DIM=3, NB=2, SB=4, MEMSZ2=24), entries=['assign_view', 'assign_elements'], unwind=10, timeout=1200, slots=2)
 U('C05', 'C05_assign.cpp', defines=dict(DIM=2, NB=3, SB=4, MEMSZ2=32), unwind=11, timeout=3600, tier='thorough', backend='kissat')
 U('C05', 'C05_assign.cpp', defines=dict(DIM=3, NB=2, SB=3, MEMSZ2=32), unwind=10, timeout=3600, tier='thorough', backend='kissat')
 
@@ -51,6 +52,7 @@ U('C06', 'C06_reextent.cpp', defines=dict(DIM=1, NB=3, ELT='int', SLOT_CELLS=3),
 U('C06', 'C06_reextent.cpp', defines=dict(DIM=2, NB=2, ELT='int', SLOT_CELLS=4), unwind=7, timeout=1800, heap=128, slots=2)
 U('C06', 'C06_reextent.cpp', defines=dict(DIM=1, NB=2, ELT='Tr', SLOT_CELLS=3), unwind=6, timeout=1800, heap=128, slots=2)
 U('C06', 'C06_reextent.cpp', defines=dict(DIM=2, NB=2, ELT='Tr', SLOT_CELLS=4), unwind=7, timeout=3600, heap=128, tier='thorough', slots=2)
+U('C06', 'C06_reextent.cpp', defines=dict(DIM=3, NB=2, ELT='int', SLOT_CELLS=8), entries=['reextent_k1', 'reextent_fill_k1', 'reshape_keeps_flat_sequence'], unwind=11, timeout=1800, heap=128, slots=2)
 
 # ---- C08 element lifetime and storage accounting (ghost bitmap + ledger; C04/C06 harnesses re-used with the tracked element type)
 U('C08', 'C08_ctor.cpp', defines=dict(DIM=1, NB=2, ELT='Tr', SLOT_CELLS=3), unwind=6, timeout=1800, heap=128, slots=2)
@@ -116,15 +118,19 @@ U('C17', 'C17_serial.cpp', defines=dict(DIM=1, NB=2, ELT='Tr', SLOT_CELLS=3), un
 for f in (1, 2):
     U('C11', 'C01_step.cpp', name='C11_f%d_C01_step_DIM2' % f, defines=dict(DIM=2, NB=3, SB=4, VF_FANCY=f), unwind=6, timeout=1200)
     U('C11', 'C02_iter.cpp', name='C11_f%d_C02_iter_DIM2' % f, defines=dict(DIM=2, NB=3, SB=4, VF_FANCY=f), unwind=6, timeout=1200)
-    U('C11', 'C05_assign.cpp', name='C11_f%d_C05_assign_DIM1' % f, defines=dict(DIM=1, NB=3, SB=4, MEMSZ2=24, VF_ROOT_CELLS=24, VF_FANCY=f), unwind=6, timeout=1200, skip_entries=['array_ref_flat'])
+    U('C11', 'C05_assign.cpp', name='C11_f%d_C05_assign_DIM1' % f, defines=dict(DIM=1, NB=3, SB=4, MEMSZ2=24, VF_ROOT_CELLS=24, VF_FANCY=f), unwind=6, timeout=1200)
     U('C11', 'C07_compare.cpp', name='C11_f%d_C07_compare_DIM1' % f, defines=dict(DIM=1, NB=3, SB=4, MEMSZ2=12, VF_ROOT_CELLS=12, VF_FANCY=f), unwind=6, timeout=1200, skip_entries=['eq_array_ref'])
-    U('C11', 'C05_assign.cpp', name='C11_f%d_C05_assign_DIM2' % f, defines=dict(DIM=2, NB=2, SB=3, MEMSZ2=16, VF_ROOT_CELLS=16, VF_FANCY=f), unwind=6, timeout=1800, skip_entries=['array_ref_flat'], tier='thorough')
+    U('C11', 'C05_assign.cpp', name='C11_f%d_C05_assign_DIM2' % f, defines=dict(DIM=2, NB=2, SB=3, MEMSZ2=16, VF_ROOT_CELLS=16, VF_FANCY=f), entries=['array_ref_flat', 'assign_view'], unwind=6, timeout=1800)
 
 # ---- C03 standard algorithms on view ranges (differential against plain arrays); libstdc++ large-range branches stubbed (dead for <= 16 elements)
 ALGO_STUBS = [r'__introsort_loop', r'__merge_adaptive', r'__merge_without_buffer', r'__stable_sort_adaptive', r'_Temporary_buffer', r'get_temporary_buffer', r'return_temporary_buffer']
-U('C03', 'C03_algo.cpp', defines=dict(RANGE=1, NB=4, SB=3, MEMSZ2=12, VF_ROOT_CELLS=12), unwind=7, timeout=500, heap=512, stubs=ALGO_STUBS)
-U('C03', 'C03_algo.cpp', defines=dict(RANGE=2, NB=2, SB=3, MEMSZ2=12, VF_ROOT_CELLS=12), unwind=7, timeout=500, heap=512, stubs=ALGO_STUBS)
-U('C03', 'C03_algo.cpp', defines=dict(RANGE=2, NB=3, SB=4, MEMSZ2=24, VF_ROOT_CELLS=24), unwind=12, timeout=7200, heap=512, stubs=ALGO_STUBS, tier='thorough', backend='kissat')
+LIGHT = ['copy_move_backward', 'equal_lexicographical', 'fill_transform', 'find_count_queries', 'remove', 'reverse', 'swap_ranges', 'unique', 'partition', 'shift_right']
+PE03 = {'equal_lexicographical': dict(unwind=24)}   # std::equal on the plain reference array is a byte-wise memcmp
+U('C03', 'C03_algo.cpp', name='C03_1d_light', defines=dict(RANGE=1, NB=4, SB=3, MEMSZ2=12, VF_ROOT_CELLS=12), entries=LIGHT, unwind=7, timeout=900, heap=512, stubs=ALGO_STUBS, per_entry=PE03)
+U('C03', 'C03_algo.cpp', name='C03_1d_sort', defines=dict(RANGE=1, NB=3, SB=2, MEMSZ2=8, VF_ROOT_CELLS=8), entries=['sort'], unwind=6, timeout=900, heap=512, stubs=ALGO_STUBS)
+U('C03', 'C03_algo.cpp', name='C03_elements_light', defines=dict(RANGE=2, NB=2, SB=3, MEMSZ2=12, VF_ROOT_CELLS=12), entries=LIGHT, unwind=7, timeout=900, heap=512, stubs=ALGO_STUBS, per_entry=PE03)
+U('C03', 'C03_algo.cpp', name='C03_1d_heavy', defines=dict(RANGE=1, NB=3, SB=2, MEMSZ2=8, VF_ROOT_CELLS=8), entries=['rotate', 'partial_sort'], unwind=6, timeout=3600, heap=512, stubs=ALGO_STUBS, tier='thorough', slots=4)
+
 # C19 also runs the C01 step family itself (every view-forming operation applied to views with symbolic index bases in [-2,2])
 for d in (1, 2):
     U('C19', 'C01_step.cpp', name='C19_step_rebased_DIM%d' % d, defines=dict(DIM=d, NB=3, SB=4, FB=2), unwind=6, timeout=900)
